@@ -21,7 +21,9 @@ MANIFEST = dict(
          "feerate), every finite fee limit and every history of on-chain requests, node-entry writes and restarts, "
          "the true non-beneficial values accepted in any window sum to at most the limit.  C08_msat_wrap_refuted keeps "
          "the witness against check_onchain_tx as found (value*1000 in plain u64; repaired in /repo by 06905f5) and the "
-         "witness is replayed on the real code in debug and release on every run.  The model is run against the real Node::check_onchain_tx, "
+         "witness is replayed on the real code in debug and release on every run.  The glue from the wire is inside the check: SignWithdrawal requests go "
+         "through as_vec / from_vec and RootHandler::handle, and the monitor judges the reply by the TRUE values of the "
+         "previous outputs (consensus-verified signatures).  The model is run against the real Node::check_onchain_tx, "
          "Approve::handle_proposed_onchain, unchecked_sign_onchain_tx and (through the Validator trait) "
          "SimpleValidator::validate_onchain_tx on generated nodes with real channels on every run; the wallet / "
          "allowlist answers come from a reference BIP32 derivation in the harness, and the property itself is "
@@ -61,13 +63,14 @@ def run(res):
     profiles = ["debug"] if quick else ["debug", "release"]
     n_node = 1500 if quick else 15000
     n_val = 2400 if quick else 25000
-    node, val, stats, aborted = [], [], [], []
+    n_handler = 900 if quick else 12000
+    node, val, hand, stats, aborted = [], [], [], [], []
     chunks = 6 if quick else 25
     for prof in profiles:
         # in chunks: a panic inside check_onchain_tx while the state lock is held turns into a process abort
         # (second panic in the deferred trace), which must not hide what the other cases show
         for k in range(chunks):
-            for sub, n, sink in (("node", n_node, node), ("val", n_val, val)):
+            for sub, n, sink in (("node", n_node, node), ("val", n_val, val), ("handler", n_handler, hand)):
                 try:
                     r = lib.run_harness("onchain", sub, res.seed * 1000 + k, n // chunks, res.tier, profile=prof)
                 except lib.Fail as e:
@@ -109,10 +112,20 @@ def run(res):
     vterms = [c["coq"] for c in val]
     fn = lib.coq_failures(IMPORTS, "node_case", "check_node", nterms, "c08_node")
     fv = lib.coq_failures(IMPORTS, "val_case", "check_val", vterms, "c08_val")
+    hsteps = [c for c in hand if c["coq"]]
+    hterms = [c["coq"][0] for c in hsteps]
+    fh = lib.coq_failures(IMPORTS, "handler_case", "check_handler", hterms, "c08_handler")
 
     # the property itself on the implementation's answers (u128 reference in the harness)
     mon_node = [c for c in node if c["monitor_violation"]]
     mon_val = [c for c in val if c["monitor_violation"]]
+    mon_hand = [c for c in hand if c["monitor_violation"]]
+    # a hidden loss first, a merely unverifiable claim after
+    mon_hand.sort(key=lambda c: 0 if any("signed away" in m or "above the fee" in m for m in c["monitor_violation"]) else 1)
+    for c in mon_hand[:2]:
+        res.violation("SignWithdrawal through the wire codec and RootHandler::handle (true input values from the previous "
+                      "transactions): " + "; ".join(c["monitor_violation"][:3]),
+                      {"domain": "onchain-handler", "seed": res.seed, "case": _strip(c)})
     for c in mon_node[:2]:
         res.violation("Node::check_onchain_tx / handle_proposed_onchain: " + "; ".join(c["monitor_violation"][:3]),
                       {"domain": "onchain-node", "seed": res.seed, "case": _strip(c)})
@@ -159,6 +172,27 @@ def run(res):
                       {"correspondence": "onchain-val", "theorem": "C08_ok_per_tag", "case": _strip(c),
                        "model": model[-400:]}, has_input=False)
 
+    shown = 0
+    for j in fh:
+        c = hsteps[j]
+        if c["monitor_violation"]:
+            continue
+        if shown >= 2:
+            break
+        shown += 1
+        model = lib.coq_eval(IMPORTS, "handler_model (%s)" % hterms[j], "c08_show")
+        res.violation("RootHandler::handle(SignWithdrawal) disagrees with Model.Onchain.handle_proposed on the view the "
+                      "request gives of the transaction (correspondence onchain-handler); observation = (0 reply / 2 error / "
+                      "3 panic, indices the approver was asked about, fee control after)",
+                      {"correspondence": "onchain-handler", "theorem": "C08_approval_needed", "case": _strip(c),
+                       "model": model[-500:]}, has_input=False)
+    dec_dis = [c for c in hand if c["decode_disagreement"] and not c["monitor_violation"]]
+    for c in dec_dis[:2]:
+        res.violation("StreamedPSBT decoding disagrees with its reference reading: a previous transaction must agree with the "
+                      "claimed witness_utxo, and a legacy output cannot be claimed without its previous transaction "
+                      "(correspondence onchain-handler-decode)",
+                      {"correspondence": "onchain-handler-decode", "case": _strip(c)}, has_input=False)
+
     dist_node, dist_val = {}, {}
     for c in node:
         for s in c["steps"]:
@@ -175,8 +209,11 @@ def run(res):
     for c in val:
         if len(c["transaction"]["outputs"]) >= 2 and c["code"] != 1:
             nontrivial.add(c["coq"])
+    for c in hand:
+        if c["coq"]:
+            nontrivial.add(c["coq"][0])
     cov.update({
-        "evaluations": len(nterms) + len(vterms),
+        "evaluations": len(nterms) + len(vterms) + len(hand),
         "distinct_nontrivial": len(nontrivial),
         "rule": "node: a fresh real node per case (own policy: max_feerate_per_kw in {253, 1000, 25000, 333333, 4e9, "
                 "2^32-2, 2^32-1}, fee velocity hourly/daily/unlimited with limits 1e7..1e15 msat, filter rule sets, dev "
@@ -193,12 +230,19 @@ def run(res):
                 "at -1 (underflow) or sums past 2^64; 3/5 of the cases mostly valid, 1/8 malformed (flag / opath / "
                 "uniclosekey counts, version, input without prev_out, base size at 32768 / 32769). val: the same worlds, "
                 "validate_onchain_tx with weight in {0, 1, 4, real, 2^32-1, 2^32, 2^63, 2^64-1}, free values and flags. "
+                "handler: SignWithdrawal (1-3 wallet inputs p2wpkh / p2sh-p2wpkh / p2tr / p2pkh spending previous "
+                "transactions built by the harness, each given as previous tx + matching witness_utxo, previous tx only, "
+                "witness_utxo only, understated / overstated / other-script witness_utxo with and without the previous tx, "
+                "or nothing; wallet change with bip32 derivations, allowlisted, unknown and channel outputs; shown fee at "
+                "0 / bound-1 / bound / bound+1, hidden value 1 .. 1e8 sat) encoded with as_vec, decoded with from_vec, "
+                "handled by RootHandler with a recording approver; the reply is checked for on-chain validity against the "
+                "TRUE previous outputs (consensus verification; taproot by rule) and the monitor uses the true values. "
                 "Non-trivial = at least two outputs or a funded channel (val: and no panic); distinct by full Coq term.",
         "samples": [_strip(node[0]) if node else None, _strip(val[0]) if val else None],
-        "traces_validated_against_impl": len(nterms) + len(vterms),
-        "correspondence_disagreements": len(fn) + len(fv),
-        "disagreements_by_domain": {"node": len(fn), "val": len(fv)},
-        "monitor_failures": len(mon_node) + len(mon_val),
+        "traces_validated_against_impl": len(nterms) + len(vterms) + len(hand),
+        "correspondence_disagreements": len(fn) + len(fv) + len(fh) + len(dec_dis),
+        "disagreements_by_domain": {"node": len(fn), "val": len(fv), "handler": len(fh), "handler-decode": len(dec_dis)},
+        "monitor_failures": len(mon_node) + len(mon_val) + len(mon_hand),
         "observed_distribution_node_check(0 ok,1 panic,2 unknown,100+tag)": dist_node,
         "observed_distribution_val(0 ok,1 panic,2 unknown,100+tag)": dist_val,
         "profiles": profiles,
